@@ -86,8 +86,20 @@ class C39(hc.PProp):
             m = htcp(rng.choice([0, 1, 1, 1, 2, 3, 4, 4, 9]), url, method=rng.choice([b'GET', b'PURGE', b'', b'X' * 300]), tid=rng.getrandbits(32), rr=rng.choice([0, 0, 1]))
             port = 4827
         else:
-            oid = rng.choice([(1, 3, 6, 1, 4, 1, 3495, 1, 1, 1, 0), (1, 3, 6, 1, 4, 1, 3495, 1), (1, 3), tuple([1, 3] + [rng.randint(0, 2 ** 31) for _ in range(rng.choice([5, 40, 130]))]), (1, 3, 6, 1, 4, 1, 3495, 1, 5, 1, 1, 1, 1, 2, 3, 4)])
-            m = snmp(rng.choice([0xA0, 0xA0, 0xA1, 0xA3, 0xA5, 0xA2]), rng.choice([b'public', b'public', b'private', b'', b'p' * 300]), oid, version=rng.choice([0, 1, 1, 3]), reqid=rng.getrandbits(31))
+            if rng.random() < 0.5:
+                # walk squid's own MIB (enterprises.3495.1): scalar groups and tables with column and instance numbers at and around their ends
+                base = (1, 3, 6, 1, 4, 1, 3495, 1)
+                idx = rng.choice([0, 1, 2, 4, 5, 6, 59, 60, 61, 62, 63, 255, 256, 65535, 2 ** 31 - 1, 2 ** 32 - 1])
+                col = rng.choice(list(range(0, 17)) + [255])
+                mib_oid = rng.choice([base + (1, col, 0), base + (2, col, 0), base + (3, 1, col, 0), base + (3, 2, 1, col, 0), base + (3, 2, 2, 1, col, idx), base + (3, 2, 2, 1, col),
+                                      base + (4, 1, 1, col, 1, 10, 1, 0, 1), base + (4, 1, 1, col, 2, 0, 0, 0, 0, 0, 0, 0, 0, 0, 0, 0, 0, 0, 0, 0, 1), base + (4, 1, 1, col, idx),
+                                      base + (5, 1, 1, col, idx), base + (5, 1, 3, 1, col, 1, 10, 0, 0, 2), base + (5, 2, 1, col, idx), base + (rng.randint(0, 7), col, idx)])
+            else:
+                mib_oid = None
+            oid = mib_oid or rng.choice([(1, 3, 6, 1, 4, 1, 3495, 1, 1, 1, 0), (1, 3, 6, 1, 4, 1, 3495, 1), (1, 3), tuple([1, 3] + [rng.randint(0, 2 ** 31) for _ in range(rng.choice([5, 40, 130]))]), (1, 3, 6, 1, 4, 1, 3495, 1, 5, 1, 1, 1, 1, 2, 3, 4)])
+            m = snmp(rng.choice([0xA0, 0xA0, 0xA1, 0xA3, 0xA5, 0xA2]) if not mib_oid else rng.choice([0xA0, 0xA0, 0xA1]), rng.choice([b'public', b'public', b'private', b'', b'p' * 300]) if not mib_oid else b'public', oid, version=rng.choice([0, 1, 1, 3]) if not mib_oid else rng.choice([0, 1]), reqid=rng.getrandbits(31))
+            if mib_oid and rng.random() < 0.8:
+                d = dict(d, rounds=0)
             port = 3401
         if d['rounds']:
             m = mutate_bytes(m, rng, d['rounds'])
